@@ -99,54 +99,80 @@ def setup():
 
 
 # ------------------------------------------------------------------ mutants
-def run_mutant(patch: str, props: list, runs: int | None = None) -> dict:
-    """Apply patch to a scratch copy of /repo/src, run the quick checks of `props` with
-    VERIF_REPO pointing there. Returns {prop: (rc, violation lines)}."""
+def load_mutants():
+    import importlib.util
+
     from . import env
 
-    scratch = os.path.join(env.SCRATCH_ROOT, f"funtracks-mutant-{os.getpid()}-{abs(hash(patch)) & 0xFFFF:x}")
+    spec = importlib.util.spec_from_file_location("verif_mutants", os.path.join(env.VERIF, "selftest", "mutants.py"))
+    mod = importlib.util.module_from_spec(spec)
+    spec.loader.exec_module(mod)
+    return mod.M
+
+
+def scratch_copy(tag: str) -> str:
+    from . import env
+
+    scratch = os.path.join(env.SCRATCH_ROOT, f"funtracks-mutant-{os.getpid()}-{tag}")
     shutil.rmtree(scratch, ignore_errors=True)
     os.makedirs(scratch)
+    shutil.copytree(os.path.join(env.REPO, "src"), os.path.join(scratch, "src"))
+    return scratch
+
+
+def run_checks_on(scratch: str, props: list, runs: int | None = None, tier: str = "quick") -> dict:
+    from . import env
+
+    out = {}
+    for prop in props:
+        envv = dict(os.environ, VERIF_REPO=scratch, VERIF_EVIDENCE_DIR=os.path.join(scratch, "evidence"), VERIF_REPLAY_DIR=os.path.join(scratch, "replays"), VERIF_SHRINK_BUDGET="60")
+        if runs:
+            envv["VERIF_RUNS"] = str(runs)
+        r = subprocess.run([os.path.join(env.VERIF, "check"), prop, tier], capture_output=True, text=True, env=envv, timeout=3000)
+        lines = [line for line in r.stdout.splitlines() if line.startswith(("VIOLATION", "HARNESS", "  oracle", "KNOWN"))]
+        out[prop] = (r.returncode, lines, r.stdout[-300:] + r.stderr[-300:])
+    return out
+
+
+def run_mutant(mut: dict, props: list, runs: int | None = None) -> dict:
+    scratch = scratch_copy(mut["name"][:40])
     try:
-        shutil.copytree(os.path.join(env.REPO, "src"), os.path.join(scratch, "src"))
-        p = subprocess.run(["patch", "-p1", "-d", scratch, "-i", os.path.abspath(patch), "--no-backup-if-mismatch"], capture_output=True, text=True)
-        if p.returncode != 0:
-            return {"_patch_failed": (p.returncode, p.stdout + p.stderr)}
-        out = {}
-        for prop in props:
-            envv = dict(os.environ, VERIF_REPO=scratch, VERIF_EVIDENCE_DIR=os.path.join(scratch, "evidence"), VERIF_REPLAY_DIR=os.path.join(scratch, "replays"))
-            if runs:
-                envv["VERIF_RUNS"] = str(runs)
-            r = subprocess.run([os.path.join(env.VERIF, "check"), prop, "quick"], capture_output=True, text=True, env=envv, timeout=3000)
-            lines = [line for line in r.stdout.splitlines() if line.startswith(("VIOLATION", "HARNESS", "  oracle"))]
-            out[prop] = (r.returncode, lines)
-        return out
+        path = os.path.join(scratch, "src", "funtracks", mut["file"])
+        src = open(path).read()
+        if src.count(mut["old"]) != 1:
+            return {"_patch_failed": (1, f"pattern occurs {src.count(mut['old'])} times in {mut['file']}")}
+        open(path, "w").write(src.replace(mut["old"], mut["new"]))
+        return run_checks_on(scratch, props, runs)
     finally:
         shutil.rmtree(scratch, ignore_errors=True)
 
 
-def mutants(argv):
-    from . import env
+def _one_mutant(mut):
+    t0 = time.time()
+    res = run_mutant(mut, [mut["prop"]])
+    return mut, res, time.time() - t0
 
-    pats = sorted(glob.glob(os.path.join(env.VERIF, "selftest", "mutants", "*.patch")))
+
+def mutants(argv):
+    muts = load_mutants()
     if argv:
-        pats = [p for p in pats if any(a in os.path.basename(p) for a in argv)]
+        muts = [x for x in muts if any(a in x["name"] for a in argv)]
     failed = 0
-    for pth in pats:
-        name = os.path.basename(pth)
-        prop = name.split("-")[0]
-        t0 = time.time()
-        res = run_mutant(pth, [prop])
-        if "_patch_failed" in res:
-            print(f"MUTANT {name}: patch does not apply: {res['_patch_failed'][1][:200]}")
-            failed += 1
-            continue
-        rc, lines = res[prop]
-        caught = rc == 1 and any(line.startswith(f"VIOLATION property={prop}") for line in lines)
-        print(f"MUTANT {name}: {'caught' if caught else 'MISSED'} by {prop} quick (rc={rc}, {time.time() - t0:.0f}s) {lines[1][:160] if caught and len(lines) > 1 else ''}")
-        if not caught:
-            failed += 1
-    print(f"mutants: {len(pats) - failed}/{len(pats)} caught")
+    # checks use all cores themselves; run mutants two at a time
+    with cf.ThreadPoolExecutor(max_workers=int(os.environ.get("VERIF_MUTANT_JOBS", "2"))) as ex:
+        for mut, res, dt in ex.map(_one_mutant, muts):
+            name, prop = mut["name"], mut["prop"]
+            if "_patch_failed" in res:
+                print(f"MUTANT {name}: does not apply: {res['_patch_failed'][1][:200]}")
+                failed += 1
+                continue
+            rc, lines, tail = res[prop]
+            caught = rc == 1 and any(line.startswith(f"VIOLATION property={prop}") for line in lines)
+            detail = next((ln.strip()[:170] for ln in lines if ln.startswith("  oracle")), tail[-200:].replace("\n", " "))
+            print(f"MUTANT {name}: {'caught' if caught else 'MISSED'} by {prop} quick (rc={rc}, {dt:.0f}s) {detail}", flush=True)
+            if not caught:
+                failed += 1
+    print(f"mutants: {len(muts) - failed}/{len(muts)} caught")
     return 0 if failed == 0 else 2
 
 
